@@ -1,6 +1,6 @@
 (* Properties_C05.v — C05: output and checkpoints do not depend on worker timing.
    The SDL model's next() takes the arrival SCHEDULE as an argument; the theorems quantify over it. Proofs: SdlMapProofs.v. *)
-From PD Require Import Base SdlModel SdlObs SdlMapProofs SdlIterWorker SdlIterScope SdlIterSmall SdlIterSmall2 SdlIterRef SdlIterProofs.
+From PD Require Import Base SdlModel SdlObs SdlMapProofs SdlIterWorker SdlIterScope SdlIterSmall SdlIterSmall2 SdlIterRef SdlIterProofs SdlIterResume.
 Open Scope list_scope. Open Scope nat_scope.
 
 (* map-style: any two arrival schedules give the same epoch *)
@@ -52,7 +52,7 @@ Print Assumptions C05_iter_statement_holds.
 Theorem C05_iter_checkpoint_never_ahead : forall c, c_kind c = KIter -> 0 < c_W c -> 0 < c_P c ->
   forall k sched, k <= length (reference c) ->
   exists gw rd a R, InvC c (Bw c) 0 gw rd a R (fst (replay c k (sdl_fresh c) sched)) /\
-                    InvW c 0 wk_fresh0 gw rd a (fst (replay c k (sdl_fresh c) sched)).
+                    InvW c 0 wk_fresh0 true gw rd a (fst (replay c k (sdl_fresh c) sched)).
 Proof. exact iter_entries_never_ahead. Qed.
 Print Assumptions C05_iter_checkpoint_never_ahead.
 
@@ -67,7 +67,7 @@ Corollary C05_iter_state_dict_entries : forall c, c_kind c = KIter -> 0 < c_W c 
 Proof.
   intros c Hk HW HP k sched Hle. cbn zeta.
   destruct (iter_entries_never_ahead c Hk HW HP k sched Hle) as (gw & rd & a & R & H & HWw).
-  exists gw, rd, a, R. split; [exact H|]. intros w Hw. exact (w_sn _ _ _ _ _ _ _ HWw w Hw).
+  exists gw, rd, a, R. split; [exact H|]. intros w Hw. exact (w_sn _ _ _ _ _ _ _ _ HWw eq_refl w Hw).
 Qed.
 Print Assumptions C05_iter_state_dict_entries.
 
@@ -92,3 +92,25 @@ Proof.
   rewrite Ea, Eb. reflexivity.
 Qed.
 Print Assumptions C05_iter_checkpoint_schedule_independent_small_scope.
+(* "... and the continuation obtained from a checkpoint does not depend on worker timing" — iterable datasets (with or without a
+   state of their own), snapshot_every_n_steps = 1 (the default) or 0: take ANY chain of (k_i batches, checkpoint, resume) under
+   two arbitrary arrival schedules; what the two final iterators still yield is the same (both are the rest of the reference) *)
+Theorem C05_iter_continuation_schedule_independent : forall c, c_kind c = KIter -> 0 < c_W c -> 0 < c_P c -> c_I c <= 1 ->
+  forall ks schedA schedB, fold_right Nat.add 0 ks <= length (reference c) ->
+  let '(sA, restA) := chain c ks (sdl_fresh c) schedA in
+  let '(sB, restB) := chain c ks (sdl_fresh c) schedB in
+  let n := S (length (reference c) - fold_right Nat.add 0 ks) in
+  outcomes c n sA restA = outcomes c n sB restB.
+Proof.
+  intros c Hk HW HP HI ks schedA schedB Hle.
+  assert (forall sched, let '(s, sched') := chain c ks (sdl_fresh c) sched in
+            outcomes c (S (length (reference c) - fold_right Nat.add 0 ks)) s sched' =
+            map OBatch (skipn (fold_right Nat.add 0 ks) (reference c)) ++ [OStop]) as Hall.
+  { intros sched. destruct (Nat.eq_dec (c_I c) 0) as [E0|N0].
+    - exact (iter_resume_chain_I0 c Hk HW HP E0 ks sched Hle).
+    - exact (iter_resume_chain_default c Hk HW HP ltac:(lia) ks sched Hle). }
+  pose proof (Hall schedA) as HA. pose proof (Hall schedB) as HB.
+  destruct (chain c ks (sdl_fresh c) schedA) as [sA rA]. destruct (chain c ks (sdl_fresh c) schedB) as [sB rB].
+  cbn zeta. rewrite HA, HB. reflexivity.
+Qed.
+Print Assumptions C05_iter_continuation_schedule_independent.
